@@ -38,6 +38,10 @@ class TagRS:
         raise core.Cut('node operation drew from the batch generator (%s): not modelled in this world' % name)
 
 
+class SubSeedMismatch(Exception):
+    """A batch received a generator seed that is not the (seed, batch index)-only value."""
+
+
 class World:
     def __init__(self, ctx, batch_size, seed=7, max_batches=6, d_specials=(INF,), nested_d=0, extra_param=False,
                  d_lo=None, bounded_prior=True):
@@ -54,8 +58,9 @@ class World:
         self.consumed = []                     # batch indices in the order wait_next returned them
         self.sim_args = {}
         self.batch_of = {}
-        for b in range(max_batches + 1):
+        for b in range(max_batches + 4):
             self.batch_of[int(elfi.utils.get_sub_seed(seed, b))] = b
+        self.batch_of_inv = {b: s_ for s_, b in self.batch_of.items()}
         self.extra_param = extra_param
         self.model = self._build()
 
@@ -151,7 +156,18 @@ class World:
     def env(self):
         ctx = self.ctx
         loader_np = NPFacade(random=_Sub(np.random, {'RandomState': TagRS}))
-        b = [(elfi.loader, {'np': loader_np})]
+        w = self
+        real_get_sub_seed = elfi.loader.get_sub_seed
+
+        def checked_get_sub_seed(seed, sub_seed_index, *a, **kw):
+            # observation point: the generator seed handed to batch i must be the one that depends on (seed, i) only
+            got = real_get_sub_seed(seed, sub_seed_index, *a, **kw)
+            want = w.batch_of_inv.get(int(sub_seed_index))
+            if want is not None and seed == w.seed and int(got) != want:
+                raise SubSeedMismatch('batch %d was given sub-seed %d (that of batch %s) instead of %d' % (
+                    sub_seed_index, got, w.batch_of.get(int(got), '?'), want))
+            return got
+        b = [(elfi.loader, {'np': loader_np, 'get_sub_seed': checked_get_sub_seed})]
         b += std_bindings([smp, pinf, mu, mres], shadow_builtins=True)
         if not ctx.symbolic:
             # np.empty may return anything; the replay picks a recognisable sentinel instead of leaving it to the
